@@ -4,6 +4,7 @@ import (
 	"bytes"
 	"encoding/binary"
 	"errors"
+	"fmt"
 	"os"
 	"time"
 	"unsafe"
@@ -71,7 +72,14 @@ func LoadCCache(cpath string) (*CCache, error) {
 }
 
 // Unmarshal a byte slice of credential cache data into CCache type.
-func (c *CCache) Unmarshal(b []byte) error {
+func (c *CCache) Unmarshal(b []byte) (err error) {
+	// The readers below index into the data using the lengths found in it.
+	// Data that is truncated or corrupted must result in an error, not a panic.
+	defer func() {
+		if r := recover(); r != nil {
+			err = fmt.Errorf("Invalid credential cache data. Truncated or corrupted: %v", r)
+		}
+	}()
 	p := 0
 	//The first byte of the file always has the value 5
 	if int8(b[p]) != 5 {
